@@ -298,7 +298,7 @@ Definition outcome := (list (list Z) * status)%type.
 
 Definition init_state : state := mkSt [] [] [] [].
 
-Definition run (strict : bool) (fuel : nat) (p : prog) : outcome :=
+Definition run_prog (strict : bool) (fuel : nat) (p : prog) : outcome :=
   if typecheck strict p then
     match exec_block strict fuel p init_state with
     | S_ok s => (rev (s_out s), Exit0)
